@@ -250,6 +250,7 @@ Proof.
   induction items as [|[cd rows] items IH]; intros created before ops Hb Hr E; cbn [col_ops] in E.
   - injection E as <-. constructor.
   - inversion Hr as [|? ? Hrow Hr']; subst. cbn [snd] in Hrow.
+    destruct (rows =? 0); [exact (IH _ _ _ Hb Hr' E)|].
     destruct cd as [cd|].
     + destruct (from_column_data cd rows) as [ic|] eqn:Ef; [|discriminate].
       destruct (ops_of_input ic) as [o1|] eqn:E1; [|discriminate].
@@ -260,12 +261,57 @@ Proof.
       * eapply ops_of_input_ingest; [|exact E1].
         destruct cd; cbn in Ef; try (injection Ef as <-; exact I || exact Hrow);
           try (destruct (_ <? _); injection Ef as <-; exact I);
-          try (destruct (_ =? _); [injection Ef as <-; exact I|discriminate]).
+          try (destruct (_ <? _); [injection Ef as <-; exact I|]; destruct (_ =? _); [injection Ef as <-; exact I|discriminate]).
       * eapply IH; [|exact Hr'|exact E2]. lia.
     + destruct (col_ops created (before + rows) items) as [o2|] eqn:E2; [|discriminate].
       injection E as <-. assert (Forall ingest_op o2) by (eapply IH; [|exact Hr'|exact E2]; lia).
       destruct created; [constructor; [cbn; lia|assumption]|assumption].
 Qed.
+
+(* ---------------------------------------------------------------------------------------------- *)
+(* A string column shorter than its batch (/repo 1c4a1c7, former finding F11) is accepted and means:
+   its strings, then NULL up to the number of rows. *)
+
+Lemma from_column_data_short_string ss rows :
+  zlen ss <= rows ->
+  exists ic, from_column_data (CDString ss) rows = Some ic /\
+             exists ops, ops_of_input ic = Some ops /\ Forall ingest_op ops.
+Proof.
+  intros H. cbn [from_column_data]. destruct (Z.ltb_spec (zlen ss) rows) as [L|L].
+  - eexists. split; [reflexivity|]. eexists. split; [reflexivity|].
+    apply Forall_forall. intros op Hop. apply in_map_iff in Hop as (v & <- & _).
+    destruct v; cbn; try reflexivity. lia.
+  - destruct (Z.eqb_spec (zlen ss) rows) as [E|E]; [|lia].
+    eexists. split; [reflexivity|]. eexists. split; [reflexivity|]. repeat constructor.
+Qed.
+
+Section ShortString.
+Variable f2s : Z -> str.
+
+Lemma fold_strs : forall ss k cs, k = KEmpty \/ k = KStr ->
+  fold_left (spec_push f2s) (map op_of_val (map RStr ss)) (k, cs) =
+  (match ss with [] => k | _ => KStr end, cs ++ map CStr ss).
+Proof.
+  induction ss as [|s ss IH]; intros k cs Hk; [cbn; now rewrite app_nil_r|].
+  cbn [map fold_left op_of_val]. 
+  assert (E : spec_push f2s (k, cs) (PStrs [s] None) = (KStr, cs ++ [CStr s])) by (destruct Hk as [-> | ->]; reflexivity).
+  rewrite E, IH by (now right). rewrite <- app_assoc. cbn [app]. f_equal. now destruct ss.
+Qed.
+
+Lemma fold_nulls : forall n k cs,
+  fold_left (spec_push f2s) (map op_of_val (repeat RNull n)) (k, cs) = (k, cs ++ repeat CNull n).
+Proof.
+  induction n as [|n IH]; intros k cs; [cbn; now rewrite app_nil_r|].
+  cbn [repeat map fold_left op_of_val spec_push]. rewrite IH. rewrite <- app_assoc. reflexivity.
+Qed.
+
+Theorem short_string_column_expected ss n :
+  expected f2s (map op_of_val (map RStr ss ++ repeat RNull n)) = map CStr ss ++ repeat CNull n.
+Proof.
+  unfold expected. rewrite !map_app, fold_left_app, fold_strs by (now left). now rewrite fold_nulls.
+Qed.
+
+End ShortString.
 
 (* ---------------------------------------------------------------------------------------------- *)
 (* The former counterexamples.  On the code before the fixes [stored] of these histories was,
